@@ -225,6 +225,9 @@ class Initiator(DataExchangeProtocol):
             res = self.send_dep_req_recv_dep_res(req, self.rwt, timeout)
             if res.pfb.fmt == DEP_RES.TimeoutExtension:
                 for i in range(3):
+                    if len(res.data) != 1:
+                        error = "invalid format of the NFC-DEP RTOX response"
+                        raise nfc.clf.ProtocolError(error)
                     req = RTOX(res.data[0], self.did, self.nad)
                     rwt = res.data[0] * self.rwt
                     log.warning("target requested %.3f sec more time", rwt)
@@ -254,6 +257,9 @@ class Initiator(DataExchangeProtocol):
             res = self.send_dep_req_recv_dep_res(req, self.rwt, timeout)
             if res.pfb.fmt == DEP_RES.TimeoutExtension:
                 for i in range(3):
+                    if len(res.data) != 1:
+                        error = "invalid format of the NFC-DEP RTOX response"
+                        raise nfc.clf.ProtocolError(error)
                     req = RTOX(res.data[0], self.did, self.nad)
                     rwt = res.data[0] * self.rwt
                     log.warning("target requested %.3f sec more time", rwt)
@@ -381,6 +387,9 @@ class Initiator(DataExchangeProtocol):
         return bytearray(frame)
 
     def decode_frame(self, frame):
+        if len(frame) < (2 if self.target.brty == '106A' else 1):
+            error = "NFC-DEP frame length byte must be from 3 to 255"
+            raise nfc.clf.TransmissionError(error)
         if self.target.brty == '106A' and frame.pop(0) != 0xF0:
             error = "first NFC-DEP frame byte must be F0h for 106A"
             raise nfc.clf.ProtocolError(error)
@@ -571,7 +580,8 @@ class Target(DataExchangeProtocol):
         res = RTOX(rtox, self.did, self.nad)
         req = self.send_dep_res_recv_dep_req(res, deadline=time.time()+1)
         if type(req) == DEP_REQ and req.pfb.fmt == DEP_REQ.TimeoutExtension:
-            return req.data[0] & 0x3F
+            if len(req.data) == 1:
+                return req.data[0] & 0x3F
 
     def send_dep_res_recv_dep_req(self, dep_res, deadline):
         def ATN(did, nad):
@@ -648,6 +658,9 @@ class Target(DataExchangeProtocol):
         return bytearray(frame)
 
     def decode_frame(self, frame):
+        if len(frame) < (2 if self.target.brty == '106A' else 1):
+            error = "NFC-DEP frame length byte must be from 3 to 255"
+            raise nfc.clf.TransmissionError(error)
         if self.target.brty == '106A' and frame.pop(0) != 0xF0:
             error = "first NFC-DEP frame byte must be F0h for 106A"
             raise nfc.clf.ProtocolError(error)
@@ -692,6 +705,8 @@ class ATR_REQ(ATR_REQ_RES):
     @staticmethod
     def decode(data):
         if data.startswith(ATR_REQ.PDU_CODE):
+            if len(data) < 16:
+                raise nfc.clf.ProtocolError("invalid format of the ATR-REQ")
             nfcid3, (did, bs, br, pp) = data[2:12], data[12:16]
             gb = data[16:] if pp & 0x02 else bytearray()
             return ATR_REQ(nfcid3, did, bs, br, pp, gb)
@@ -719,6 +734,8 @@ class ATR_RES(ATR_REQ_RES):
     @staticmethod
     def decode(data):
         if data.startswith(ATR_RES.PDU_CODE):
+            if len(data) < 17:
+                raise nfc.clf.ProtocolError("invalid format of the ATR-RES")
             nfcid3, (did, bs, br, to, pp) = data[2:12], data[12:17]
             gb = data[17:] if pp & 0x02 else bytearray()
             return ATR_RES(nfcid3, did, bs, br, to, pp, gb)
